@@ -55,3 +55,12 @@ Ltac abstract_ifz :=
 (* Groebner-basis decision of polynomial identities under polynomial hypotheses; Nsatz is
    Required but not Imported because importing it shadows [nth] and the list notations *)
 Ltac nsatzR := NsatzTactic.nsatz_default.
+
+(* equality of two generated expressions that differ only by ring rearrangements below
+   non-ring symbols (sqrt, comparisons, selections): structural congruence with [ring] at the leaves *)
+Ltac congr_ring :=
+  first [ reflexivity | ring
+        | match goal with
+          | |- ?f ?a ?b = ?f ?c ?d => f_equal; congr_ring
+          | |- ?f ?a = ?f ?b => f_equal; congr_ring
+          end ].
